@@ -317,6 +317,15 @@ func (l *Ledger) scan(tag string, quiet bool) (int, error) {
 				}
 			}
 			ns.NPages = commit
+			// a page inside the committed size that no frame and no database-file
+			// page defines was allocated but never written (SQLite does not write
+			// freelist leaf pages): SQLite reads it as zeros
+			lock := uint32(0x40000000/l.PageSize) + 1
+			for pg := uint32(1); pg <= commit; pg++ {
+				if ns.Pages[pg] == nil && pg != lock {
+					ns.Pages[pg] = newPage(make([]byte, l.PageSize))
+				}
+			}
 			ns.hash = ""
 			if quiet {
 				l.cur = ns
